@@ -6,9 +6,11 @@ import Dhcp.V6.Codec
   contain options (IA_NA, IA_TA, IAADDR, IA_PD, IAPREFIX, S46 4rd container,
   relay message) have a fixed part followed by a tiling of their own
   remainder, recursively.  The layout of the remaining ("leaf") options is
-  delegated to `decSimple`/`decDUID`, whose RFC readings are checked by the
-  independent Go reference decoder (oracle c05) and, for the fixed-size ones,
-  by the lemmas in DhcpProofs/Props/C05.lean.
+  delegated HERE to `decSimple`/`decDUID`; Dhcp/Spec/Wire6Rfc.lean is the same
+  grammar with those delegations replaced by the declarative per-option RFC
+  layouts `PLeaf`/`PDUID` of Dhcp/Spec/Leaf6.lean, and
+  DhcpProofs/Lemmas/V6LeafIff.lean proves the two grammars equivalent
+  (`C05_exact_rfc` in DhcpProofs/Props/C05.lean).
 -/
 namespace Dhcp.Spec
 open Dhcp Dhcp.V6
